@@ -17,7 +17,11 @@ FragmentsOfRegexps, Packet.as_regular_expression and pattern_matching.filter_lik
      with the N the unpack strategy uses; a delimited Data renders <custom|.*> + the
      escaped marker / the marker's pattern;
  (e) holes render as (?:.{n}) with n = gap, only when n > 0;
+ (i) as_regular_expression assembles the pattern afresh from the current field values on every call;
+ (j) the unpack siblings agree with the pattern (C06 b-d, C07 a, b, e);
  (g) building the pattern is stateless (rule R5 of C13 on the regexp functions);
+ (i) as_regular_expression assembles the pattern afresh from the current field values on every call;
+ (j) the unpack siblings agree with the pattern (C06 b-d, C07 a, b, e);
  (f) Bits: all-fixed byte -> literal; all-don't-care -> .{1}; don't-care suffix ->
      range [lo-hi] with escaped bounds; otherwise the class of {(p & dont_care) | fixed}.
 Language inclusion of the regex and the regex engine itself are not decided.
@@ -521,6 +525,59 @@ def check_any(ctx, repo):
             ctx.violation(rule, al, 'anything_like', 'not every field of the packet is set to an unconstrained Any()', al.node.lineno, clause='h')
 
 
+def check_fresh_expression(ctx, repo):
+    """(i) as_regular_expression computes the pattern from the current field values on every
+    call: fresh FragmentsOfRegexps, every field contributes, the compiled pattern is the one
+    assembled from that buffer; nothing is remembered on the packet"""
+    rule = 'R12-fresh-expression'
+    pk = repo.cls('Packet')
+    are = pk.methods.get('as_regular_expression')
+    tagf = lambda c: 'buffer' if call_name(c) in ('FragmentsOfRegexps',) else None
+    w = repo.walker(tag=tagf)
+    paths = [p for p in w.paths(are.node, cls=pk) if not p.raises()]
+    for p in paths:
+        label = 'path [%s]' % '; '.join(p.guard_texts())[:140]
+        for e in p.all_effects():
+            if (e.kind in ('store_attr', 'setattr') and canon(e.obj) == 'self') or (e.kind == 'store_sub' and canon(e.obj).startswith('self.')):
+                ctx.violation(rule, are, 'as_regular_expression: %s' % e.text()[:100], 'the expression is remembered on the pattern packet: after a field is changed (e.g. relaxed back to Any) the stale, tighter expression is reused', e.lineno, clause='i')
+        bufs = [e for e in p.calls() if e.value is not None and isinstance(e.value, ast.Name) and e.value.id.startswith('<#')]
+        impl = [e for e in p.calls() if isinstance(e.call.func, ast.Attribute) and e.call.func.attr == 'as_regular_expression_impl']
+        r = p.ret()
+        ok = len(bufs) == 1 and len(impl) == 1 and impl[0].call.args and canon(impl[0].call.args[0]) == bufs[0].value.id \
+            and r is not None and call_name(r) in ('re.compile', 'compile') and ('%s.assemble_regexp()' % bufs[0].value.id) in canon(r)
+        if ok:
+            ctx.holds(rule, are, label + ' -> re.compile(... + buffer.assemble_regexp())', 'fresh buffer, filled by every field, compiled on this call', are.node.lineno, clause='i')
+        else:
+            ctx.violation(rule, are, label + ' -> %s' % (canon(r)[:100] if r is not None else None), 'a path returns an expression that was not assembled on this call from the current field values', are.node.lineno, clause='i')
+    if not paths:
+        ctx.violation(rule, are, 'as_regular_expression', 'no returning path', are.node.lineno, clause='i')
+
+
+def check_unpack_siblings(ctx, repo):
+    """(j) the pattern describes what unpack accepts: the delimiter the pattern requires is
+    required by the unpack strategy (C06 c, d), sized reads are exact (C06 b), and the bit
+    groups the character classes assume are laid out MSB-first / big-endian (C07 e)"""
+    from . import c06, c07
+    ci = repo.cls('Data')
+    sel = c06.check_selection(ctx)
+    seen = set()
+    for kind in ('int', 'field', 'callable', 'expression'):
+        t = sel.get(kind)
+        if t is None:
+            continue
+        fi = repo.method(ci, t)
+        key = (fi.id, 'callable' if kind == 'expression' else kind)
+        if key in seen:
+            continue
+        seen.add(key)
+        c06.classify_sized(ctx, ci, fi, 'callable' if kind == 'expression' else kind)
+    for kind, regex in (('bytes-marker', False), ('regex-marker', True)):
+        t = sel.get(kind)
+        if t is not None:
+            c06.classify_marker(ctx, ci, repo.method(ci, t), regex)
+    c07.check_compile(ctx, repo.cls('Bits'))
+
+
 def check_bits(ctx, repo):
     """(f) the four byte shapes of Bits.pack_regexp"""
     rule = 'R12-bits-classes'
@@ -591,6 +648,8 @@ def check(ctx):
     check_prefix_and_match(ctx, repo)
     check_bits(ctx, repo)
     check_any(ctx, repo)
+    check_fresh_expression(ctx, repo)
+    check_unpack_siblings(ctx, repo)
     # (g) building the pattern is stateless: a cache on a shared object makes the pattern of one
     # packet depend on the patterns built before it
     from .c13 import check_statelessness
